@@ -80,9 +80,9 @@ def strategy(tier):
             n = complex(p.n)
             return {"src": "contour", "t": t, "logx": lx, "n": [n.real, n.imag]}
 
-        # integers mapped onto the interval: Hypothesis' float strategy over-samples 0 / end points, which would put most
-        # cases on the real axis (t = 0.5 <=> Im N = 0)
-        unit = st.integers(0, 10**6).map(lambda k: (k + 0.5) / (10**6 + 1))
+        # uniform values from a numpy Generator seeded by a Hypothesis-drawn integer: Hypothesis' float / integer
+        # strategies over-sample 0 and the end points, which would put half of the cases on the real axis
+        unit = st.integers(0, 2**32 - 1).map(lambda s: float(np.random.default_rng(s).uniform(1e-9, 1 - 1e-9)))
         contour = st.builds(
             on_contour,
             st.one_of(unit.map(lambda u: 0.5 + 0.45 * u), unit.map(lambda u: 0.5 + 0.45 * u), st.floats(0.5, 0.95)),
